@@ -156,6 +156,8 @@ def main(argv):
             else:
                 # functions marked proved-by-cases are external_body in main
                 fns = [f for f in fns if 'proved-by-cases' not in '\n'.join(base[max(0, gen.functions[f]['out_lines'][0] - 3):gen.functions[f]['out_lines'][0] + 1])]
+            if os.environ.get('KILL_FNS'):
+                fns = [f for f in fns if re.search(os.environ['KILL_FNS'], f)]
             for fn in fns:
                 for (li, a, b, rep, name, file, line) in sites(gen, fn):
                     lines = list(base)
